@@ -12,6 +12,7 @@ let n_to_int (n : n) : int = match n with N0 -> 0 | Npos p -> pos_to_int p
 let rec pos_of_int (i : int) : positive =
   if i = 1 then XH else if i land 1 = 0 then XO (pos_of_int (i lsr 1)) else XI (pos_of_int (i lsr 1))
 let z_of_int (i : int) : z = if i = 0 then Z0 else if i > 0 then Zpos (pos_of_int i) else Zneg (pos_of_int (- i))
+let z_to_int (x : z) : int = match x with Z0 -> 0 | Zpos p -> pos_to_int p | Zneg p -> - (pos_to_int p)
 let rec nat_to_int (n : nat) : int = match n with O -> 0 | S k -> 1 + nat_to_int k
 let rec nat_of_int (i : int) : nat = if i <= 0 then O else S (nat_of_int (i - 1))
 
@@ -198,7 +199,18 @@ let () =
            (match out with
             | OOk ls ->
                 Printf.printf "STEP %d ok\n" !n;
-                Stdlib.List.iter (fun l -> Printf.printf "OUT %s\n" (hx l)) ls
+                Stdlib.List.iter (fun l -> Printf.printf "OUT %s\n" (hx l)) ls;
+                (* the remaining fields of each log entry, as the model's reader reads them back *)
+                (match a with
+                 | ACmd (_, CLog _) ->
+                     Stdlib.List.iter (fun v ->
+                       match v with
+                       | None -> Printf.printf "LOGE none\n"
+                       | Some ((h, None), m) -> Printf.printf "LOGE %s noauthor %s\n" (hx h) (hx m)
+                       | Some ((h, Some sg), m) ->
+                           Printf.printf "LOGE %s %s %s %d %d %s\n" (hx h) (hx sg.s_name) (hx sg.s_email)
+                             (z_to_int sg.s_time) (z_to_int sg.s_off) (hx m)) (log_view w'.w_objs ls)
+                 | _ -> ())
             | OErr -> Printf.printf "STEP %d err\n" !n
             | OPanic -> Printf.printf "STEP %d panic\n" !n);
            Stdlib.List.iter (fun e -> Printf.printf "TR %s\n" (effect_name e)) tr;
